@@ -462,6 +462,40 @@ def check_string(ctx, paths, s, model, deep):
                          {"s": s, "doc": doc.decode("utf-8", "replace") if not doc.startswith((b"\xff\xfe", b"\xfe\xff")) else doc.decode("utf-16", "replace")}, k, s, direction="reply", position="attr")
 
 
+def same_local_names(ctx):
+    """Attributes of one element that share a local name and differ in namespace are different attributes: the parser
+    keeps each with its own value, whether the prefix is declared on the element, on an ancestor, or re-bound below."""
+    from suds.sax.parser import Parser
+    rng = ctx.rng
+    for _ in range(ctx.pick(30, 600)):
+        vals = ["".join(rng.choice(FRAGS[:12] + ["a", "b", " ", "é"]) for _ in range(rng.randint(0, 3))).replace("<", "")
+                for _ in range(6)]
+        vals = [v.replace("&", "&amp;").replace('"', "&quot;") for v in vals]
+        orders = [rng.sample(['k="%s"' % vals[0], 'p:k="%s"' % vals[1], 'q:k="%s"' % vals[2]], 3) for _ in range(3)]
+        decl_here = rng.random() < 0.3
+        doc = ('<r xmlns:p="urn:p" xmlns:q="urn:q" k="%s" p:k="%s"><e %s%s/><m><e %s/></m><w xmlns:p="urn:other"><e %s/>'
+               '<e type="plain" xsi:type="p:T" xmlns:xsi="%s"/></w><e type="%s" xsi:type="%s" nil="n" xsi:nil="false"/></r>'
+               % (vals[3], vals[4], " ".join(orders[0]), ' xmlns:q="urn:q"' if decl_here else "", " ".join(orders[1]),
+                  " ".join(orders[2]), xmlread.XSI, vals[5], vals[5]))
+        doc = doc.replace("<r ", '<r xmlns:xsi="%s" ' % xmlread.XSI, 1).encode("utf-8")
+        ctx.case(("same-local-names", common.digest(doc.decode())), True)
+        try:
+            truth = xmlread.parse(doc)
+        except xmlread.XmlError:
+            continue
+        want = [sorted([k[0] or "", k[1], v] for k, v in n["attrs"].items()) for n in xmlread.walk(truth)]
+        try:
+            root = Parser().parse(string=doc).root()
+            got = []
+            root.walk(lambda n: got.append(sorted([a.namespace()[1] or "", a.name, str(a.value)] for a in n.attributes)))
+        except Exception as e:
+            got = "%s: %s" % (type(e).__name__, e)
+        if got != want:
+            ctx.fail("the parser does not keep the attributes the document has", {"doc": doc.decode()}, got, want,
+                     direction="reply", position="attr")
+            return
+
+
 def text_ops(ctx):
     """Correspondence for Text.__add__ / trim with the escaped flag."""
     from suds.sax.text import Text
@@ -538,6 +572,7 @@ def run(ctx, deep_budget=None):
                     ctx.fail("reply element text not decoded to the document's string", {"s": s, "encoding": enc},
                              [r, k, v], [s, s, s], direction="reply", position="text")
     text_ops(ctx)
+    same_local_names(ctx)
     ctx.exhaustive = False
     ctx.sample({"string": "a<b&amp; \"q\"", "paths": ["Encoder.encode/decode vs model", "Element.plain/str -> expat + suds parser",
                                                        "request envelope (plain, pretty) -> expat",
